@@ -5,15 +5,17 @@ Import ListNotations.
 Open Scope Z_scope.
 
 (* hypotheses are satisfiable by non-trivial values: an expression with parentheses that matter to
-   Incan but not to Rust's reading (7 - 2 * 3 stays grouped), a ZeroDivisionError, and a whole function *)
+   Incan but not to Rust's reading (7 - 2 * 3 stays grouped), a ZeroDivisionError, and a whole program
+   with two functions, a loop, a nested block and a call with keyword arguments out of order *)
 Example C01_nonvacuous :
   let e := EBin OpSub (EInt 7) (EParen (EBin OpMul (EInt 2) (EInt 3))) in
   regroups (lower_expr [] e) = false /\ eval [] e = EV (VI 1) /\
   regroups (lower_expr [] (EBin OpMod (EInt 7) (EParen (EBin OpSub (EInt 2) (EInt 2))))) = false /\
   eval [] (EBin OpMod (EInt 7) (EParen (EBin OpSub (EInt 2) (EInt 2)))) = EZeroDiv /\
-  known_grouping nonvacuous_case = false /\
-  run default_fuel nonvacuous_case = ([LI 10; LI 11; LI 12; LI (-4)], Done).
-Proof. vm_compute. repeat split; reflexivity. Qed.
+  known_grouping nonvacuous_case = false /\ calls_wf (cprog nonvacuous_case) = true /\
+  (exists fs, lower_prog (cprog nonvacuous_case) = LOk fs) /\
+  run default_fuel nonvacuous_case = ([LI 10; LI 11; LI 12; LI (-4); LI 17], Done).
+Proof. vm_compute. repeat split; try reflexivity. eexists; reflexivity. Qed.
 
 (* P1  expression lemma: outside the grouping class, the emitted tokens parse (Rust's grammar) to a
        term whose value is the value the documented semantics give the source expression — a value
@@ -43,33 +45,38 @@ Proof.
 Qed.
 Print Assumptions C01_not_refuted.
 
-(* P4  statement/program simulation.  For every function of the fragment and every argument list:
-       if lowering succeeds and the function is outside the grouping class, then the emitted token
-       tree parses (Rust's grammar) to a body which — run with release-build semantics: wrapping i64,
-       the C04 helper models — prints the same lines in the same order and stops the same way
-       (normally, ZeroDivisionError, ValueError for a zero range step) as the documented semantics
-       say, whenever those define the run (enough fuel, no integer overflow, no ill-formed program).
-       The Rust side is reached with some fuel F and with every larger fuel. *)
+(* P4  program simulation.  For every program of the fragment (several functions with int parameters
+       and an optional int result, calls with positional and keyword arguments, return), every entry
+       function and argument list: if lowering succeeds, the program is outside the grouping class and
+       keyword arguments written out of declaration order are atoms (calls_wf), then the emitted token
+       tree parses (Rust's grammar) to function items which — run with release-build semantics: wrapping
+       i64, the C04 helper models, arguments evaluated in EMITTED order and bound positionally — print
+       the same lines in the same order and stop the same way (normally, ZeroDivisionError, ValueError
+       for a zero range step) as the documented semantics (arguments evaluated in WRITTEN order, bound
+       by name), whenever those define the run (enough fuel, no integer overflow, no ill-formed
+       program).  The Rust side is reached with some fuel F and with every larger fuel. *)
 Theorem C01_compile_correct : forall c fuel out k,
   ~ Known_C01_grouping c ->
-  (exists ib, lower_fn c = LOk ib) ->
+  (exists fs, lower_prog (cprog c) = LOk fs) ->
+  calls_wf (cprog c) = true ->
   run fuel c = (out, k) -> k <> OutOfFuel -> k <> Unspec -> k <> Stuck ->
-  exists ts b, compile c = COk ts b /\
-    exists F, forall F', (F <= F')%nat -> rrun F' (params c) (args c) b = (out, k).
+  exists ts p, compile c = COk ts p /\
+    exists F, forall F', (F <= F')%nat -> rrun F' p (centry c) (entry_args c) = (out, k).
 Proof.
-  intros c fuel out k Hg Hl Hr H1 H2 H3.
-  apply (compile_correct c fuel out k); [|exact Hl|exact Hr|repeat split; assumption].
+  intros c fuel out k Hg Hl Hw Hr H1 H2 H3.
+  apply (compile_correct c fuel out k); [|exact Hl|exact Hw|exact Hr|repeat split; assumption].
   unfold Known_C01_grouping in Hg. destruct (known_grouping c); [exfalso; now apply Hg|reflexivity].
 Qed.
 Print Assumptions C01_compile_correct.
 
-(* P5  the function-level class is real: the grouping witness as a one-line function prints 3, the
+(* P5  the program-level class is real: the grouping witness as a one-line function prints 3, the
        documented semantics print -3 *)
 Theorem C01_compile_refuted :
   exists c, Known_C01_grouping c /\ run default_fuel c = ([LI (-3)], Done) /\
             run_compiled default_fuel c = Some ([LI 3], Done).
 Proof.
-  exists {| params := []; args := []; body := blk [SPrint witness_paren] |}.
+  exists {| cprog := [{| fname := 0; fparams := []; fret := false; fbody := blk [SPrint (CPure witness_paren)] |}];
+            centry := 0; args := [] |}.
   unfold Known_C01_grouping. vm_compute. repeat split; reflexivity.
 Qed.
 Print Assumptions C01_compile_refuted.
